@@ -20,11 +20,20 @@ use crate::{
 
 use crate::compile;
 
+// The parser is recursive descent and the syntax tree it builds is dropped and cloned
+// recursively, so both the nesting depth and the number of chained operators are bounded;
+// beyond these an expression is rejected instead of exhausting the stack.
+const MAX_NESTING_DEPTH: usize = 48;
+const MAX_OPERATORS: usize = 1000;
+
 pub struct CelCompiler<'l> {
     tokenizer: &'l mut dyn Tokenizer,
     bindings: BindContext<'l>,
 
     next_label: u32,
+
+    depth: usize,
+    operators: usize,
 }
 
 impl<'l> CelCompiler<'l> {
@@ -33,6 +42,8 @@ impl<'l> CelCompiler<'l> {
             tokenizer,
             bindings: BindContext::for_compile(),
             next_label: 0,
+            depth: 0,
+            operators: 0,
         }
     }
 
@@ -58,6 +69,32 @@ impl<'l> CelCompiler<'l> {
     }
 
     fn parse_expression(&mut self) -> CelResult<(CompiledProg, AstNode<Expr>)> {
+        if self.depth >= MAX_NESTING_DEPTH {
+            return Err(SyntaxError::from_location(self.tokenizer.location())
+                .with_message("Expression is nested too deeply".to_string())
+                .into());
+        }
+
+        self.depth += 1;
+        let res = self.parse_expression_inner();
+        self.depth -= 1;
+
+        res
+    }
+
+    fn count_operator(&mut self) -> CelResult<()> {
+        self.operators += 1;
+
+        if self.operators > MAX_OPERATORS {
+            return Err(SyntaxError::from_location(self.tokenizer.location())
+                .with_message("Expression has too many operators".to_string())
+                .into());
+        }
+
+        Ok(())
+    }
+
+    fn parse_expression_inner(&mut self) -> CelResult<(CompiledProg, AstNode<Expr>)> {
         if let Some(Token::Match) = self.tokenizer.peek()?.as_token() {
             self.tokenizer.next()?;
             self.parse_match_expression()
@@ -408,6 +445,7 @@ impl<'l> CelCompiler<'l> {
         loop {
             if let Some(Token::OrOr) = self.tokenizer.peek()?.as_token() {
                 self.tokenizer.next()?;
+                self.count_operator()?;
                 let (rhs_node, rhs_ast) = self.parse_conditional_and()?;
 
                 let jmp_node = CompiledProg::with_code_points(vec![
@@ -453,6 +491,7 @@ impl<'l> CelCompiler<'l> {
         loop {
             if let Some(Token::AndAnd) = self.tokenizer.peek()?.as_token() {
                 self.tokenizer.next()?;
+                self.count_operator()?;
                 let (rhs_node, rhs_ast) = self.parse_relation()?;
 
                 let jmp_node = CompiledProg::with_code_points(vec![
@@ -496,6 +535,7 @@ impl<'l> CelCompiler<'l> {
             match self.tokenizer.peek()?.as_token() {
                 Some(Token::LessThan) => {
                     self.tokenizer.next()?;
+                    self.count_operator()?;
 
                     let (rhs_node, rhs_ast) = self.parse_addition()?;
                     let range = current_ast.range().surrounding(rhs_ast.range());
@@ -518,6 +558,7 @@ impl<'l> CelCompiler<'l> {
                 }
                 Some(Token::LessEqual) => {
                     self.tokenizer.next()?;
+                    self.count_operator()?;
                     let (rhs_node, rhs_ast) = self.parse_addition()?;
                     let range = current_ast.range().surrounding(rhs_ast.range());
 
@@ -539,6 +580,7 @@ impl<'l> CelCompiler<'l> {
                 }
                 Some(Token::EqualEqual) => {
                     self.tokenizer.next()?;
+                    self.count_operator()?;
                     let (rhs_node, rhs_ast) = self.parse_addition()?;
                     let range = current_ast.range().surrounding(rhs_ast.range());
 
@@ -560,6 +602,7 @@ impl<'l> CelCompiler<'l> {
                 }
                 Some(Token::NotEqual) => {
                     self.tokenizer.next()?;
+                    self.count_operator()?;
                     let (rhs_node, rhs_ast) = self.parse_addition()?;
                     let range = current_ast.range().surrounding(rhs_ast.range());
 
@@ -581,6 +624,7 @@ impl<'l> CelCompiler<'l> {
                 }
                 Some(Token::GreaterEqual) => {
                     self.tokenizer.next()?;
+                    self.count_operator()?;
                     let (rhs_node, rhs_ast) = self.parse_addition()?;
                     let range = current_ast.range().surrounding(rhs_ast.range());
 
@@ -602,6 +646,7 @@ impl<'l> CelCompiler<'l> {
                 }
                 Some(Token::GreaterThan) => {
                     self.tokenizer.next()?;
+                    self.count_operator()?;
                     let (rhs_node, rhs_ast) = self.parse_addition()?;
                     let range = current_ast.range().surrounding(rhs_ast.range());
 
@@ -623,6 +668,7 @@ impl<'l> CelCompiler<'l> {
                 }
                 Some(Token::In) => {
                     self.tokenizer.next()?;
+                    self.count_operator()?;
                     let (rhs_node, rhs_ast) = self.parse_addition()?;
                     let range = current_ast.range().surrounding(rhs_ast.range());
 
@@ -655,6 +701,7 @@ impl<'l> CelCompiler<'l> {
             match self.tokenizer.peek()?.as_token() {
                 Some(Token::Add) => {
                     self.tokenizer.next()?;
+                    self.count_operator()?;
 
                     let (rhs_node, rhs_ast) = self.parse_multiplication()?;
                     let range = current_ast.range().surrounding(rhs_ast.range());
@@ -677,6 +724,7 @@ impl<'l> CelCompiler<'l> {
                 }
                 Some(Token::Minus) => {
                     self.tokenizer.next()?;
+                    self.count_operator()?;
 
                     let (rhs_node, rhs_ast) = self.parse_multiplication()?;
                     let range = current_ast.range().surrounding(rhs_ast.range());
@@ -711,6 +759,7 @@ impl<'l> CelCompiler<'l> {
             match self.tokenizer.peek()?.as_token() {
                 Some(Token::Multiply) => {
                     self.tokenizer.next()?;
+                    self.count_operator()?;
 
                     let (rhs_node, rhs_ast) = self.parse_unary()?;
                     let range = current_ast.range().surrounding(rhs_ast.range());
@@ -732,6 +781,7 @@ impl<'l> CelCompiler<'l> {
                 }
                 Some(Token::Divide) => {
                     self.tokenizer.next()?;
+                    self.count_operator()?;
 
                     let (rhs_node, rhs_ast) = self.parse_unary()?;
                     let range = current_ast.range().surrounding(rhs_ast.range());
@@ -754,6 +804,7 @@ impl<'l> CelCompiler<'l> {
                 }
                 Some(Token::Mod) => {
                     self.tokenizer.next()?;
+                    self.count_operator()?;
 
                     let (rhs_node, rhs_ast) = self.parse_unary()?;
                     let range = current_ast.range().surrounding(rhs_ast.range());
@@ -822,69 +873,71 @@ impl<'l> CelCompiler<'l> {
     }
 
     fn parse_not_list(&mut self) -> CelResult<(CompiledProg, AstNode<NotList>)> {
-        match self.tokenizer.peek()? {
-            Some(&TokenWithLoc {
-                token: Token::Not,
-                loc,
-            }) => {
-                self.tokenizer.next()?;
+        let mut locs = Vec::new();
 
-                let (not_list, ast) = self.parse_not_list()?;
-                let node = compile!([ByteCode::Not.into()], not_list, not_list);
-
-                let range = ast.range().surrounding(loc);
-
-                Ok((
-                    node,
-                    AstNode::new(
-                        NotList::List {
-                            tail: Box::new(ast),
-                        },
-                        range,
-                    ),
-                ))
-            }
-            _ => {
-                let start_loc = self.tokenizer.location();
-                Ok((
-                    CompiledProg::empty(),
-                    AstNode::new(NotList::EmptyList, SourceRange::new(start_loc, start_loc)),
-                ))
-            }
+        while let Some(&TokenWithLoc {
+            token: Token::Not,
+            loc,
+        }) = self.tokenizer.peek()?
+        {
+            self.tokenizer.next()?;
+            self.count_operator()?;
+            locs.push(loc);
         }
+
+        let start_loc = self.tokenizer.location();
+        let mut node = CompiledProg::empty();
+        let mut ast = AstNode::new(NotList::EmptyList, SourceRange::new(start_loc, start_loc));
+
+        // the list nests to the right: build it from the innermost operator outwards
+        for loc in locs.into_iter().rev() {
+            let not_list = node;
+            node = compile!([ByteCode::Not.into()], not_list, not_list);
+
+            let range = ast.range().surrounding(loc);
+            ast = AstNode::new(
+                NotList::List {
+                    tail: Box::new(ast),
+                },
+                range,
+            );
+        }
+
+        Ok((node, ast))
     }
 
     fn parse_neg_list(&mut self) -> CelResult<(CompiledProg, AstNode<NegList>)> {
-        match self.tokenizer.peek()? {
-            Some(&TokenWithLoc {
-                token: Token::Minus,
-                loc,
-            }) => {
-                self.tokenizer.next()?;
+        let mut locs = Vec::new();
 
-                let (neg_list, ast) = self.parse_neg_list()?;
-                let node = compile!([ByteCode::Neg.into()], neg_list, neg_list);
-
-                let range = ast.range().surrounding(loc);
-
-                Ok((
-                    node,
-                    AstNode::new(
-                        NegList::List {
-                            tail: Box::new(ast),
-                        },
-                        range,
-                    ),
-                ))
-            }
-            _ => {
-                let start_loc = self.tokenizer.location();
-                Ok((
-                    CompiledProg::empty(),
-                    AstNode::new(NegList::EmptyList, SourceRange::new(start_loc, start_loc)),
-                ))
-            }
+        while let Some(&TokenWithLoc {
+            token: Token::Minus,
+            loc,
+        }) = self.tokenizer.peek()?
+        {
+            self.tokenizer.next()?;
+            self.count_operator()?;
+            locs.push(loc);
         }
+
+        let start_loc = self.tokenizer.location();
+        let mut node = CompiledProg::empty();
+        let mut ast = AstNode::new(NegList::EmptyList, SourceRange::new(start_loc, start_loc));
+
+        // the list nests to the right: build it from the innermost operator outwards
+        for loc in locs.into_iter().rev() {
+            let neg_list = node;
+            node = compile!([ByteCode::Neg.into()], neg_list, neg_list);
+
+            let range = ast.range().surrounding(loc);
+            ast = AstNode::new(
+                NegList::List {
+                    tail: Box::new(ast),
+                },
+                range,
+            );
+        }
+
+        Ok((node, ast))
     }
 
     fn parse_member(&mut self) -> CelResult<(CompiledProg, AstNode<Member>)> {
@@ -1282,8 +1335,11 @@ impl<'l> CelCompiler<'l> {
                         FStringSegment::Expr(e) => {
                             let mut tok = StringTokenizer::with_input(&e);
                             let mut comp = CelCompiler::with_tokenizer(&mut tok);
+                            comp.depth = self.depth;
+                            comp.operators = self.operators;
 
                             let (e, _) = comp.parse_expression()?;
+                            self.operators = comp.operators;
 
                             bytecode.push(
                                 ByteCode::Push(CelValue::ByteCode(
